@@ -25,7 +25,7 @@ ASSUMPTIONS = [
     "virtual clock: asyncio timers fire in deadline order exactly as on a real clock; wall time is only a watchdog",
     "one caller at a time (concurrency is C06)",
 ]
-MUST = ["aa55_answers_with_wrapping_checksum", "silent_request_after_failed_endpoint", "silent_request_after_failed_connections", "stale_answer_while_next_request_in_flight", "requests_around_transaction_id_wrap", "stale_fragment_while_idle", "auto_detected_object_silent", "public_entry_points", "truncated_answer", "stale_datagram_while_idle", "retry_branch", "max_retries_branch", "fragment_rearm", "immediate_retry_invalid", "tcp_connect_error",
+MUST = ["family_object_budget_silent", "aa55_answers_with_wrapping_checksum", "silent_request_after_failed_endpoint", "silent_request_after_failed_connections", "stale_answer_while_next_request_in_flight", "requests_around_transaction_id_wrap", "stale_fragment_while_idle", "auto_detected_object_silent", "public_entry_points", "truncated_answer", "stale_datagram_while_idle", "retry_branch", "max_retries_branch", "fragment_rearm", "immediate_retry_invalid", "tcp_connect_error",
         "connect_hang_bounded", "silent_exact", "success", "rejected"]
 EXHAUSTIVE = {"quick": True, "thorough": True}
 
@@ -374,8 +374,8 @@ def run_shard(spec):
         from .. import env as env_, sims as sims_
         g = env_.goodwe()
         for fam in ("ET", "DT", "ES"):
-            for port in ((8899, 502) if fam != "ES" else (8899,)):
-                for t, r in ((1, 0), (1, 2), (2, 3), (0.5, 1)):
+            for port, how in [(p_, h_) for p_ in ((8899, 502) if fam != "ES" else (8899,)) for h_ in ("auto", "family", "ctor")]:
+                for t, r in ((1, 0), (1, 2), (2, 3), (0.5, 1)) + (((3, 0), (2, 1), (1, 5)) if how != "auto" else ()):
                     if fam == "ES":
                         sim = sims_.Aa55Sim("inv0")
                     else:
@@ -383,7 +383,13 @@ def run_shard(spec):
                     st = {}
 
                     async def flow(loop):
-                        inv = await g.connect("inv0", port, None, 0, t, r)
+                        if how == "auto":
+                            inv = await g.connect("inv0", port, None, 0, t, r)
+                        elif how == "family":       # the family named by the caller (each family class forwards the budget itself)
+                            inv = await g.connect("inv0", port, fam, 0, t, r)
+                        else:                       # the class constructed directly, as the documentation shows
+                            inv = {"ET": g.ET, "DT": g.DT, "ES": g.ES}[fam]("inv0", port, 0, t, r)
+                            await inv.read_device_info()
                         st["n0"], st["t0"] = len([e for e in loop.events if e[1] == "tx"]), loop.time()
                         sim.silent = True
                         try:
@@ -395,8 +401,9 @@ def run_shard(spec):
                     run = engine.run_custom({("inv0", port): sim}, flow, vtime_cap=300, tx_cap=300)
                     part.evaluations += 1
                     tr = "udp" if port == 8899 else "tcp"
-                    ctx = f"connect() without family -> {fam} port {port} timeout={t} retries={r}, then a silent inverter"
-                    case = {"discovered": True, "family": fam, "port": port, "t": t, "r": r}
+                    ctx = ({"auto": "connect() without family", "family": f"connect(family={fam!r})", "ctor": f"{fam}(host, port, 0, {t}, {r})"}[how]
+                           + f" -> {fam} port {port} timeout={t} retries={r}, then a silent inverter")
+                    case = {"discovered": True, "family": fam, "port": port, "t": t, "r": r, "how": how}
                     if run.stop or run.error is not None:
                         part.violate(f"C04/{tr}/hang" if run.stop else f"C04/{tr}/setup", f"{ctx}: {run.stop or repr(run.error)}", case)
                         continue
@@ -407,7 +414,7 @@ def run_shard(spec):
                     elif st["out"] != "RequestFailedException" or abs(st["t1"] - (st["t0"] + (r + 1) * t)) > 1e-6:
                         part.violate(f"C04/{tr}/silent-failure-time", f"{ctx}: ended {st['out']} at +{round(st['t1'] - st['t0'], 6)}", case)
                     else:
-                        part.count("auto_detected_object_silent")
+                        part.count("auto_detected_object_silent" if how == "auto" else "family_object_budget_silent")
     elif mode == "connect":
         for R in (0, 1, 2, 3):
             for depth in range(1, spec["depth"] + 1):
@@ -440,8 +447,8 @@ def run_shard(spec):
 def replay(case):
     part = Part()
     if case.get("discovered"):
-        run_shard({"mode": "entries", "transport": "udp", "framing": "rtu", "T": 1, "R": 0})
-        return []
+        p_ = run_shard({"mode": "entries", "transport": "udp", "framing": "rtu", "T": 1, "R": 0})
+        return [{"key": v["key"], "msg": v["msg"]} for v in p_.violations if (v.get("case") or {}).get("discovered")]
     run, vs = run_case(case["scenario"], part)
     for c in run.calls:
         print("  call", c)
